@@ -18,9 +18,9 @@ def main(argv=None):
     prop = a.prop.upper()
     try:
         mod = importlib.import_module("harness.props.%s" % prop.lower())
-    except ImportError:
+    except Exception:      # also syntax errors in a check module: a machinery failure, never an alarm
         traceback.print_exc()
-        print("no check for %s" % prop)
+        print("MACHINERY-FAILURE %s: the check module cannot be loaded" % prop)
         return 2
     ctx = framework.Ctx(prop, a.tier, a.seed)
     try:
